@@ -37,6 +37,14 @@ theorem headersIgnored_new (code : Int) (id m : Nat) (h : headersStale id m = fa
   have := headersStale_false id m h
   simp [headersIgnored]; omega
 
+/-- after a GOAWAY every frame of a stream above the last stream id is dropped -/
+theorem discarded_above (code : Int) (j m : Nat) (h : m < j) :
+    headersIgnored true code j m = true ∧ dataDiscarded true code j m = true ∧ rstDiscarded true code j m = true := by
+  refine ⟨?_, ?_, ?_⟩
+  · simp [headersIgnored]; omega
+  · simp [dataDiscarded]; omega
+  · simp [rstDiscarded]; omega
+
 /-! ### connection errors are final -/
 
 theorem goAway_dead (c : Conn) (code : Int) : (goAway c code).1.dead = c.dead := by
@@ -165,6 +173,9 @@ theorem keeps_other' (c : Conn) (id : Nat) (st : Strm) (e : Ev) (hk : Keeps c id
   | rst j =>
     have hj : id ≠ j := by simp [Ev.other] at ho; exact fun e => ho e.symm
     simp only [step, stepWith, h1, Bool.false_eq_true, if_false]
+    by_cases hdis : rstDiscarded c.inGoAway c.code j c.maxId = true
+    · rw [if_pos hdis]; exact Or.inr hk
+    rw [if_neg hdis]
     cases hg : getS c j with
     | some stj => exact Or.inr (keeps_delS c id j st hk hj)
     | none =>
@@ -279,4 +290,17 @@ theorem inflight_complete (id : Nat) (decl : Option Nat) (tr : Bool) (hodd : id 
           rw [hsum]
           exact List.mem_append_right _ this
 
+/-- a stream begun after the GOAWAY (id above the last stream id) is invisible: its HEADERS, DATA and RST_STREAM
+frames change nothing and produce nothing — in particular no connection error -/
+theorem refused_stream_step (c : Conn) (e : Ev) (j : Nat) (hg : c.inGoAway = true) (hj : c.maxId < j)
+    (he : e = .headers j false none ∨ (∃ es d, e = .headers j es d) ∨ (∃ n es, e = .data j n es) ∨ e = .rst j) :
+    step c e = (c, []) := by
+  obtain ⟨h1, h2, h3⟩ := discarded_above c.code j c.maxId hj
+  by_cases hd : c.dead = true
+  · exact step_dead _ c e hd
+  have hd : c.dead = false := by simpa using hd
+  rcases he with he | ⟨es, d, he⟩ | ⟨n, es, he⟩ | he <;> subst he <;>
+    simp [step, stepWith, hd, hg, h1, h2, h3]
+
 end MosnVerif.Lemmas.H2GoAway
+
